@@ -7,11 +7,13 @@
 //!   replyhex=<hex>  print these bytes verbatim instead of solving
 //!   fail=<kind>@<k> misbehave at the k-th call (1-based; k=0: every call):
 //!                   exit-silent | status-only | truncate-zero | truncate-token | truncate-mid |
-//!                   garbage-line | two-status | var-out-of-range | crash | unknown-status
+//!                   garbage-line | two-status | var-out-of-range | crash | unknown-status |
+//!                   c-garbage | bare-v
 //!   behav=<b>       readall (default) | writefirst (write the whole reply before reading stdin) |
 //!                   interleave (alternate reading a chunk and writing a chunk) |
 //!                   partial-exit (write half the reply, then exit without reading) | exit-at-once |
 //!                   noread (write the reply, never read stdin)
+//!   mark=<path>     created when the failure requested by fail= was actually emitted
 //!   capout=<path>   write the stdout pipe capacity (F_GETPIPE_SZ) to this file
 use cvx::dimacs::parse_dimacs;
 use cvx::dpll;
@@ -125,7 +127,15 @@ fn main() {
         let _ = out.flush();
         return;
     }
+    let fired = |args: &[String]| {
+        if let Some(m) = opt(args, "mark") {
+            let _ = std::fs::write(m, b"fired");
+        }
+    };
     if let Some(kind) = &active_fail {
+        if matches!(kind.as_str(), "exit-silent" | "crash" | "garbage-line" | "unknown-status" | "c-garbage" | "bare-v") {
+            fired(&args);
+        }
         match kind.as_str() {
             "exit-silent" => std::process::exit(0),
             "crash" => {
@@ -134,6 +144,16 @@ fn main() {
             }
             "garbage-line" => {
                 let _ = out.write_all(b"Segmentation fault (core dumped)\n");
+                let _ = out.flush();
+                return;
+            }
+            "c-garbage" => {
+                let _ = out.write_all(b"caught signal 11, dumping core\n");
+                let _ = out.flush();
+                return;
+            }
+            "bare-v" => {
+                let _ = out.write_all(b"s SATISFIABLE\nv\n");
                 let _ = out.flush();
                 return;
             }
@@ -157,6 +177,10 @@ fn main() {
     let mut vals = vec![false; nv];
     for (k, &v) in vars.iter().enumerate() {
         vals[v as usize - 1] = models[0][k];
+    }
+    if active_fail.is_some() {
+        // the remaining failure kinds corrupt a SAT reply: they fire only here
+        fired(&args);
     }
     let mut text = String::from("s SATISFIABLE\n");
     let lits: Vec<String> = vals.iter().enumerate().map(|(i, b)| if *b { format!("{}", i + 1) } else { format!("-{}", i + 1) }).collect();
